@@ -293,6 +293,31 @@ fn drive<I: Iterator<Item = ChessMove> + Clone>(ctx: &mut Ctx, s: &Session, mut 
     Ok(())
 }
 
+/// drive the iterator without any oracle (sessions that continue without a model)
+pub fn consume_unchecked(ctx: &mut Ctx, s: &Session) -> Step {
+    let b = &s.board;
+    let model = Model { remaining: vec![], yielded: vec![], removed: vec![], mask: !0 };
+    match ctx.tape.choose(3) {
+        0 => {
+            let it = op(Op::Generate, || b.legals());
+            let ops = ops_for!(it);
+            drive(ctx, s, it, &ops, model, false, false)
+        }
+        1 => {
+            let (m, _) = draw_mask(ctx, s, !0);
+            let it = op(Op::Generate, || b.legals_masked(sut::bb(m)));
+            let ops = ops_for!(it);
+            drive(ctx, s, it, &ops, model, false, false)
+        }
+        _ => {
+            let c = if ctx.tape.choose(2) == 0 { chess_bitboard::Color::White } else { chess_bitboard::Color::Black };
+            let it = op(Op::Generate, || b.king_legals(c));
+            let ops = ops_for!(it);
+            drive(ctx, s, it, &ops, model, false, false)
+        }
+    }
+}
+
 pub fn consume(ctx: &mut Ctx, s: &Session, l1: &[Mv]) -> Step {
     let which = ctx.tape.choose(8);
     let b = &s.board;
